@@ -13,6 +13,7 @@ Decided clause: frame discipline in getBH_level2 (E2-FRAME):
       parameter itself, and the function returned is bound from such a lookup
   F12 handedness domain: the Sensor.handedness setter stores the value its membership test admitted, and every literal the
       attribute is compared with (field code, display) is a member of the admitted set
+  F13 no function gathers the sensors of a collection tree level by level from the typed views (row k of the result is sensors_all[k])
 Not decided: pixel slice offsets, the `unrotated`/`static` fast-path predicates, pixel_agg axis arithmetic.
 """
 import ast
@@ -68,10 +69,12 @@ def f12(repo, res):
 
 
 def run(repo, res, tier):
-    res.rules = ["F3 pixel placement / back-rotation typing", "F4 handedness flips component 0 only", "F5 path predicates quantify over the path", "F6 flip before aggregation", "F7 flip reached for every sensor", "F8 aggregation unconditional", "F9 constant path index only under a staticness guard", "F11 aggregator lookup by the given name", "F12 handedness domain"]
+    res.rules = ["F3 pixel placement / back-rotation typing", "F4 handedness flips component 0 only", "F5 path predicates quantify over the path", "F6 flip before aggregation", "F7 flip reached for every sensor", "F8 aggregation unconditional", "F9 constant path index only under a staticness guard", "F11 aggregator lookup by the given name", "F12 handedness domain", "F13 observer collections flattened in sensors_all order"]
     extra = frame_rules.c04(repo, res)
     f11(repo, res)
     f12(repo, res)
+    from props import c11
+    c11.typed_view_flatten(repo, res, "F13")      # observer collections are flattened in sensors_all order (rows of the result)
     res.assumptions += ["declared types: sens.pixel : Vec[sens], sens._orientation : Rot[sens->G], sens._position : Pt[G]; getBH_level1(...) : Vec[G]"]
     return extra
 
